@@ -202,6 +202,9 @@ func RunCase(line string) (impl string, fail string, sig string, err error) {
 	}
 	res, err := runImpl(sel, d, glyphs)
 	if err != nil {
+		if strings.Contains(err.Error(), "not a fixed point of build/project") {
+			return "build-not-faithful", "the font built from the description does not project back to it: " + err.Error(), "c10-build-not-faithful", nil
+		}
 		return "", "", "", err
 	}
 	fail, sig = oracle(sel, d, glyphs, &res)
@@ -225,6 +228,18 @@ func one(run *vlib.Run, sel string, d *Desc, glyphs []int, orc []int, labels ...
 	cl := CaseLine(sel, d, glyphs, orc)
 	res, err := runImpl(sel, d, glyphs)
 	if err != nil {
+		if strings.Contains(err.Error(), "not a fixed point of build/project") {
+			// The font built from the description (through the library's own
+			// cmap / outline / layout structures) does not show the content
+			// it was built from: on the unchanged tree this never happens, so
+			// it is an observation of the code under test, not of the
+			// generator - the original font already maps characters or holds
+			// glyphs other than those described, and no statement about the
+			// subset can be evaluated.
+			idx := run.Add("!"+cl, "build-not-faithful", true, append(labels, "build-not-faithful")...)
+			report(run, idx, "!"+cl, "the font built from the description does not project back to it: "+err.Error(), "c10-build-not-faithful")
+			return
+		}
 		// a generator bug, not an observation of the code under test
 		panic(err)
 	}
